@@ -1,29 +1,51 @@
 """C13 - subscribers get each event exactly once, in order, only while subscribed.
 
-1. TLC design checks of Signal.tla (server subscriber table, proxy reference
-   counting, connection FIFO, client dispatch, forwarding goroutines) with the
-   deviations of the code switched OFF: the property invariants hold over every
-   interleaving of the bounded configurations (2 subscribers on one client /
-   on two signals / on two connections, re-subscription, 1-2 emissions).
+1. TLC design checks of Signal.tla (per-object subscriber tables, proxy reference
+   counting keyed by (connection, object, signal), connection FIFO, client
+   dispatch filter on service / object / action, forwarding goroutines, failing
+   subscriber connections) with the deviations of the code switched OFF: the
+   property invariants hold over every interleaving of the bounded
+   configurations (2 subscribers on one client / on two signals / on two
+   connections / on sibling objects through one client / next to a subscriber
+   whose connection breaks; re-subscription, 1-2 emissions, a non-Event message
+   addressed like a subscribed signal).  Vacuity guards: each further named
+   deviation (filter ignores service / object / action, forwarder ignores the
+   message type, emitter stops at the first failed send, blind clean-up) breaks
+   its invariant in the model.
 2. With the deviations ON (what the code does) TLC searches the shortest
-   schedules that violate each invariant (GenSignal, Hunt) and simulates complete
-   schedules; (b) the harness forces all of them on the real code with gates at
-   the proxy State steps, at RegisterEvent/UnregisterEvent processing and between
-   snapshot and Send.
-3. (c) randomised drivers on the generated Subscribe*/Signal* API.
+   schedules that violate each invariant (GenSignal, Hunt), the shortest ones
+   that reach the situations the routing / failure clauses are about (witnesses:
+   an event of a sibling object / of another service / of another action / a
+   non-Event message dispatched next to an acknowledged subscriber; a Send
+   failing with io.EOF / another error / on a closed end point while healthy
+   subscribers are still to be served) and simulates complete schedules;
+   (b) the harness forces all of them on the real code with gates at the proxy
+   State steps, at RegisterEvent/UnregisterEvent processing and between
+   snapshot and Send, on sockets and on a harness-owned stream whose server-side
+   writes it can make fail.
+3. (c) randomised drivers on the generated Subscribe*/Signal* API (one object;
+   sibling objects and services through one client; a connection that breaks).
 4. Every execution (gated or random) is recorded - harness events, hook events
    and connection taps in one order - and validated by TLC against
    TraceSignal.tla: the trace must be a behaviour of the specification, and the
    property invariants are evaluated on it.  A violated invariant is a violation
    of C13 by the real code; it is classified by the deviation of the
-   specification that is needed to explain the trace.
+   specification that is needed to explain the trace.  A trace the code model
+   cannot explain is validated once more with one of the further deviations
+   switched on (diagnosis: names the clause that broke).
 Self-test: corrupted traces must be rejected.
 """
 import json, os, random, re
 from vlib import Infra, log
 
 INVS = ["NoDuplicate", "InOrderNoGap", "Complete", "NoForeignSignal", "ClosedAfterCancel",
-        "NothingAfterUnregisterAck", "OthersUndisturbed"]
+        "NothingAfterUnregisterAck", "OthersUndisturbed", "RemovedAtMostOnce", "NoDeadRegistration"]
+PROBES = {"MCSignal_probe.cfg": ["Dev_FilterIgnoresService", "Dev_FilterIgnoresObject", "Dev_FilterIgnoresAction",
+                                 "Dev_ForwardIgnoresType"],
+          "MCSignal_probe_fail.cfg": ["Dev_StopAtFirstFailedSend", "Dev_CleanupRemovesBlindly",
+                                      "Dev_UnregIgnoresConnection"]}
+BREAKS = {"Dev_StopAtFirstFailedSend": "Complete", "Dev_CleanupRemovesBlindly": "RemovedAtMostOnce",
+          "Dev_UnregIgnoresConnection": "OthersUndisturbed"}
 
 
 def export(r, path, mode="a"):
@@ -50,15 +72,21 @@ def split(path):
     return sc
 
 
-def tlc_trace(ctx, scen, what, cfg="TraceSignal.cfg", count=True):
+def tlc_trace(ctx, scen, what, cfg="TraceSignal.cfg", count=True, first=False):
     """validate the scenarios; returns per scenario None (not consumed) or (the set of
     violated invariants, the set of deviations needed) common to every way TLC can
-    explain it."""
+    explain it (first=True: of the first way found - diagnosis only)."""
     res = [None] * len(scen)
     todo = list(range(len(scen)))
     rounds = 0
     while todo and rounds < 8:
         rounds += 1
+        if rounds == 2 and cfg == "TraceSignal.cfg":
+            # a scenario was not explained: the ones behind it in one more run in which a scenario may
+            # be passed over (same constants; the explained ones are those with a verdict line)
+            for i, v in zip(todo, tlc_skip(ctx, [scen[i] for i in todo], what + "-rest")):
+                res[i] = v
+            break
         p = ctx.path("c13-%s-%s-%d.ndjson" % (what, cfg.replace(".cfg", ""), rounds))
         ends, n = [], 0
         with open(p, "w") as f:
@@ -83,6 +111,8 @@ def tlc_trace(ctx, scen, what, cfg="TraceSignal.cfg", count=True):
                 sets = viol.get(ends[k])
                 if not sets:
                     raise Infra("scenario %d consumed but no verdict printed" % i)
+                if first:
+                    sets = sets[:1]
                 res[i] = (frozenset.intersection(*[b for b, _ in sets]),
                           frozenset.intersection(*[d for _, d in sets]))
             else:
@@ -93,8 +123,35 @@ def tlc_trace(ctx, scen, what, cfg="TraceSignal.cfg", count=True):
     return res
 
 
+def tlc_skip(ctx, scen, what):
+    """one run over scenarios each of which may be passed over (TraceSignal_skip.cfg); per scenario None
+    (no behaviour of the specification) or (violated invariants, deviations) as tlc_trace"""
+    p = ctx.path("c13-%s-skip.ndjson" % what)
+    ends, n = [], 0
+    with open(p, "w") as f:
+        for sc in scen:
+            f.write("\n".join(sc) + "\n")
+            n += len(sc)
+            ends.append(n)
+    r = ctx.tlc("TraceSignal", "TraceSignal_skip.cfg", workers=1, dfs=True, env={"TRACE": p}, count=False,
+                name="TraceSignal_skip.cfg:" + what, timeout=2400)
+    m = re.search(r'<<"HWM", (\d+), (\d+)>>', r.out)
+    if not m or int(m.group(1)) <= n:
+        raise Infra("TraceSignal_skip did not reach the end of the trace:\n" + r.out[-1500:])
+    viol = {}
+    for v in r.printed("VIOL"):
+        viol.setdefault(int(v["l"]), []).append((frozenset(v["bad"]), frozenset(v["dev"])))
+    out = []
+    for e in ends:
+        sets = viol.get(e)
+        out.append(None if not sets else (frozenset.intersection(*[b for b, _ in sets]),
+                                          frozenset.intersection(*[d for _, d in sets])))
+    return out
+
+
 def judge(ctx, scen, verdicts, what, meta=None):
     hit = {}
+    diagnosed = 0
     for i, v in enumerate(verdicts):
         if v is not None and not v[0]:
             continue
@@ -102,8 +159,22 @@ def judge(ctx, scen, verdicts, what, meta=None):
         if meta:
             info.update(meta[i])
         if v is None:
+            # diagnosis (first few only): is it a behaviour of the specification with ONE further
+            # deviation switched on?
+            extra, d = [], None
+            if diagnosed < 3:
+                diagnosed += 1
+                d = tlc_trace(ctx, [scen[i]], "diag-%s-%d" % (what, i), cfg="TraceSignal_diag.cfg", count=False,
+                              first=True)[0]
+                extra = sorted(d[1] - {"Dev_ProxySectionsNotAtomic", "Dev_SendAfterSnapshot"}) if d else []
+            if extra:
+                info = dict(info, diagnosis=extra, diagnosis_invariants=sorted(d[0]))
+                for inv in sorted(d[0]):
+                    ctx.failure(inv, "%s scenario %d violates %s; explained only by %s (a deviation the code is not "
+                                "known to have)" % (what, i, inv, "+".join(extra)),
+                                dict(info, invariant=inv, needs="diagnosis:" + "+".join(sorted(d[1]))))
             ctx.failure("trace/unexplained", "%s scenario %d is not a behaviour of Signal.tla (deviations of the code "
-                        "included)" % (what, i), info)
+                        "included)%s" % (what, i, "; it is one with " + "+".join(extra) if extra else ""), info)
             continue
         n = "+".join(sorted(v[1]))
         if n == "":
@@ -120,10 +191,26 @@ def run(ctx):
     rnd = random.Random(ctx.seed)
 
     # ---- 1. design: the property holds for the conforming design --------------------
-    for cfg in (["MCSignal.cfg", "MCSignal_sig.cfg", "MCSignal_conn.cfg", "MCSignal_2.cfg"] +
-                (["MCSignal_thorough.cfg"] if thorough else [])):
+    # one object (2 subscribers on one client / two signals / two connections), sibling objects through
+    # one client, a non-Event message addressed like the subscribed signal, a subscriber connection that
+    # breaks next to a healthy one, an unregisterEvent that names another connection's registration
+    for cfg in (["MCSignal.cfg", "MCSignal_sig.cfg", "MCSignal_conn.cfg", "MCSignal_2.cfg",
+                 "MCSignal_obj.cfg", "MCSignal_inj.cfg", "MCSignal_rogue.cfg", "MCSignal_fail.cfg"] +
+                (["MCSignal_thorough.cfg", "MCSignal_obj2.cfg", "MCSignal_svc.cfg", "MCSignal_objconn.cfg",
+                  "MCSignal_fail2.cfg"] if thorough else [])):
         ctx.design_check("Signal", cfg, workers=8, timeout=2700, coverage=(thorough and cfg == "MCSignal_2.cfg"))
     ctx.design_check("Signal", "MCSignal_live.cfg", workers=4, timeout=900)
+    # nothing blocks: an emit call returns whatever happens to the subscribers' connections
+    ctx.design_check("Signal", "MCSignal_fail_live.cfg" if thorough else "MCSignal_fail_live1.cfg", workers=4, timeout=1800)
+    # vacuity guards: each named deviation breaks its invariant (model only; the code has none of them)
+    for cfg, devs in PROBES.items():
+        r = ctx.tlc("Signal", cfg, workers=1, count=False, expect_ok=False, timeout=900, seed=ctx.seed,
+                    simulate=("num=200000" if cfg == "MCSignal_probe.cfg" else None), depth=(400 if cfg == "MCSignal_probe.cfg" else None))
+        seen = set(re.findall(r'<<"PROBE", "(\w+)">>', r.out))
+        if set(devs) - seen or "ProbePending" not in r.out:
+            raise Infra("vacuity guard %s: %s did not break their invariant" % (cfg, sorted(set(devs) - seen)))
+        for d in devs:
+            ctx.model_only.append("%s breaks %s (%s)" % (d, BREAKS.get(d, "NoForeignSignal"), cfg))
 
     # ---- 2. schedules: hunts (deviations on) + simulation ------------------------------
     sp = ctx.path("c13-sched.ndjson")
@@ -138,12 +225,27 @@ def run(ctx):
         hunts[inv] = export(r, sp)
         if hunts[inv] == 0:
             raise Infra("hunt %s exported nothing" % inv)
+    # witnesses: the shortest schedules that reach the situations the routing / failure clauses are about
+    for name, cfg, want in (("W_foreign", "GenSignal_hunt_foreign.cfg",
+                             ["W_SiblingObjectEvent", "W_OtherServiceEvent", "W_OtherActionEvent", "W_NonEvent",
+                              "W_RogueUnregister"]),
+                            ("W_fail", "GenSignal_hunt_fail.cfg",
+                             ["W_FailedSendNotLast_eof", "W_FailedSendNotLast_err", "W_FailedSendNotLast_down",
+                              "W_SnapshotOfBroken"])):
+        r = ctx.tlc("GenSignal", cfg, workers=1, count=False, expect_ok=False, timeout=900)
+        got = set(w for v in r.printed("G") for w in v["bad"])
+        if "HuntOpen" not in r.violated or set(want) - got:
+            raise Infra("witness hunt %s: missing %s" % (cfg, sorted(set(want) - got)))
+        hunts[name] = export(r, sp)
     nsim = 0
-    for k, cfg in enumerate(("GenSignal.cfg", "GenSignal_mixed.cfg", "GenSignal_pair.cfg")):
-        r = ctx.tlc("GenSignal", cfg, workers=1, count=False, simulate="num=%d" % (400 if thorough else 50),
+    nnum = 400 if thorough else 40
+    for k, (cfg, num) in enumerate((("GenSignal.cfg", nnum), ("GenSignal_mixed.cfg", nnum), ("GenSignal_pair.cfg", nnum),
+                                    ("GenSignal_obj.cfg", nnum // 2), ("GenSignal_svc.cfg", nnum // 2),
+                                    ("GenSignal_fail.cfg", nnum // 2), ("GenSignal_fail2.cfg", nnum // 2))):
+        r = ctx.tlc("GenSignal", cfg, workers=1, count=False, simulate="num=%d" % num,
                     depth=500, seed=ctx.seed * 10 + k, timeout=1200)
         nsim += export(r, sp)
-    if nsim < 100:
+    if nsim < 150:
         raise Infra("simulation exported %d schedules" % nsim)
     gt = ctx.path("c13-gated.trace")
     rg = ctx.harness_json("signal", ["c13-gated", sp, gt], timeout=3000)
@@ -175,46 +277,95 @@ def run(ctx):
 
     # ---- 3. randomised drivers -----------------------------------------------------------
     rt = ctx.path("c13-rec.trace")
-    nrec = 1200 if thorough else 80
+    nrec = 1200 if thorough else 96
     rr = ctx.harness_json("signal", ["c13-record", rt, str(nrec)], timeout=3000)
     rr["extra"].pop("index", None)
     ctx.extra.update(rr["extra"])
     rscen = split(rt)
-    if len(rscen) != nrec:
-        raise Infra("%d scenarios recorded, %d in the trace" % (nrec, len(rscen)))
+    if len(rscen) != rr["evaluations"]:
+        raise Infra("%d scenarios recorded, %d in the trace" % (rr["evaluations"], len(rscen)))
+    # (the harness stops early when scenario after scenario runs into the bounds of its waits - a broken
+    #  tree; what was recorded until then is validated like the rest; the counts are in the evidence)
     rverd = tlc_trace(ctx, rscen, "recorded")
     rhit = judge(ctx, rscen, rverd, "recorded")
     ctx.traces += len(rscen)
     ctx.extra["c13_recorded_classes"] = rhit
     ctx.extra["c13_recorded_clean"] = sum(1 for v in rverd if v is not None and not v[0])
-    ctx.sample({"scenario": [json.loads(x) for x in rscen[0][:16]]})
+    if rscen:
+        ctx.sample({"scenario": [json.loads(x) for x in rscen[0][:16]]})
 
     # ---- 4. self-test: corrupted traces must not pass ------------------------------------------
-    clean = [s for s, v in zip(rscen, rverd) if v is not None and not v[0] and any('"e":"recv"' in l for l in s)]
-    clean += [s for s, v in zip(scen, verd) if v is not None and not v[0] and any('"e":"recv"' in l for l in s)]
+    # (the shortest clean scenario a corruption applies to)
+    cleanall = sorted([s for s, v in zip(rscen, rverd) if v is not None and not v[0]] +
+                      [s for s, v in zip(scen, verd) if v is not None and not v[0]], key=len)
+    clean = [s for s in cleanall if any('"e":"recv"' in l for l in s)]
     tried = caught = 0
-    missed = []
-    for mode in ("dup-recv", "drop-recv-mid", "renumber", "drop-wire", "foreign", "no-close"):
-        for s in clean[:60]:
+    missed, corrupted, unapplied = [], [], []
+
+    def subscribed_at(s, th, k):
+        """thread th is acknowledged and has not asked to cancel at line k"""
+        on = False
+        for l in s[:k]:
+            x = json.loads(l)
+            if x.get("th") == th:
+                if x["e"] == "suback" and x.get("ok") == 1:
+                    on = True
+                elif x["e"] in ("cancelcall", "subcall"):
+                    on = False
+            if x.get("e") == "break" and CONN[th] == x.get("c"):
+                on = False
+        return on
+
+    def after_break(s):
+        """the sendfail lines of emissions that took their snapshot after the break of the connection"""
+        out, broke, snap_after = [], set(), set()
+        for k, l in enumerate(s):
+            x = json.loads(l)
+            if x.get("e") == "break":
+                broke.add(x["c"])
+            elif x.get("e") == "snapshot":
+                snap_after = set(broke)
+            elif x.get("e") == "sendfail" and x["c"] in snap_after:
+                out.append(k)
+        return out
+
+    CONN = {"t1": "c1", "t2": "c1", "t3": "c1", "t4": "c2", "t5": "c2", "t6": "c1", "t7": "c2", "t8": "c1",
+            "t9": "c3", "t10": "c3"}
+    for mode in ("dup-recv", "drop-recv-mid", "renumber", "drop-wire", "foreign", "no-close",
+                 "sibling-object", "other-service", "non-event", "drop-sendfail", "send-after-break", "rogue-removes"):
+        if ctx.violations:
+            # the tree is broken: what it recorded is no material for a self-test of the binding
+            break
+        for s in (cleanall if mode in ("drop-sendfail", "send-after-break", "rogue-removes", "non-event") else clean):
             recv = [k for k, l in enumerate(s) if '"e":"recv"' in l]
             s2 = list(s)
             if mode == "dup-recv":
                 k = recv[rnd.randrange(len(recv))]
                 s2.insert(k, s2[k])
             elif mode == "drop-recv-mid":
-                # a received event vanishes while a later one of the same thread stays
-                # (both inside one subscription: an unread event at a cancel is legal)
+                # a received event vanishes while a later one of the same thread stays (both inside one
+                # subscription: an unread event at a cancel is legal; the vanished one emitted after the
+                # subscription was acknowledged: one racing the subscription may legally be missed)
                 pair = None
-                last = {}
+                last, acked, emitted_at = {}, {}, {}
                 for k, l in enumerate(s):
                     x = json.loads(l)
                     if x.get("e") in ("closed", "subcall"):
                         last.pop(x["th"], None)
+                        acked.pop(x["th"], None)
+                    elif x.get("e") == "suback":
+                        acked[x["th"]] = k
+                    elif x.get("e") == "emitcall":
+                        emitted_at[x["k"]] = k
+                    elif x.get("e") == "break":
+                        for th in [t for t in last if CONN[t] == x["c"]]:
+                            last.pop(th)
                     elif x.get("e") == "recv":
                         if x["th"] in last:
                             pair = last[x["th"]]
                             break
-                        last[x["th"]] = k
+                        if x["th"] in acked and emitted_at.get(x["k"], -1) > acked[x["th"]]:
+                            last[x["th"]] = k
                 if pair is None:
                     continue
                 del s2[pair]
@@ -227,31 +378,101 @@ def run(ctx):
                     continue
                 del s2[w[0]]
             elif mode == "foreign":
+                # an event attributed to a subscriber of the other signal (same object, same connection)
                 k = recv[rnd.randrange(len(recv))]
                 x = json.loads(s2[k])
-                x["th"] = {"t1": "t3", "t2": "t3", "t4": "t5", "t3": "t1", "t5": "t4"}[x["th"]]
+                x["th"] = {"t1": "t3", "t2": "t3", "t4": "t5", "t3": "t1", "t5": "t4", "t6": "t3", "t7": "t5",
+                           "t8": "t3", "t9": "t5", "t10": "t5"}[x["th"]]
                 s2[k] = json.dumps(x, separators=(",", ":"))
+            elif mode in ("sibling-object", "other-service"):
+                # the subscriber of o1 on the same client also "receives" an event of the sibling object o2 /
+                # of the object with the same id in the other service
+                src = "t6" if mode == "sibling-object" else "t8"
+                ks = [k for k in recv if json.loads(s[k])["th"] == src and subscribed_at(s, "t1", k)]
+                if not ks:
+                    continue
+                x = json.loads(s[ks[0]]); x["th"] = "t1"
+                s2.insert(ks[0] + 1, json.dumps(x, separators=(",", ":")))
+            elif mode == "non-event":
+                # the injected non-Event message reaches the subscriber's channel
+                ks = [k for k, l in enumerate(s) if '"t":"inj"' in l and '"e":"wire"' in l]
+                ks = [k for k in ks for x in [json.loads(s[k])]
+                      if x["c"] == "c1" and x["o"] == "o1" and x["sig"] == "A" and subscribed_at(s, "t1", k)]
+                if not ks:
+                    continue
+                s2.insert(ks[0] + 1, '{"e":"recv","k":0,"th":"t1"}')
+            elif mode == "drop-sendfail":
+                # a failed write of the server is not reported: the emitter cannot have got past it
+                # (a write that failed in an emission whose snapshot was taken after the break: before
+                # it, an unreported successful write just ahead of the break explains the trace as well)
+                ks = [k for k in after_break(s)]
+                if not ks:
+                    continue
+                del s2[ks[0]]
+            elif mode == "rogue-removes":
+                # the unregisterEvent of another connection succeeds (a removal instead of "unknown user")
+                ks = None
+                for k, l in enumerate(s):
+                    x = json.loads(l)
+                    if x.get("e") == "rogue":
+                        for k2 in range(k + 1, len(s)):
+                            y = json.loads(s[k2])
+                            if y.get("e") == "remove_unknown" and y["c"] == x["c"] and y["o"] == x["o"]:
+                                ks = (k2, y)
+                                break
+                        if ks:
+                            break
+                if not ks:
+                    continue
+                s2[ks[0]] = json.dumps({"c": ks[1]["c"], "e": "remove", "n": 0, "o": ks[1]["o"]}, separators=(",", ":"))
+            elif mode == "send-after-break":
+                # an event reaches the broken connection after the break
+                ks = after_break(s)
+                if not ks:
+                    continue
+                x = json.loads(s[ks[0]])
+                s2[ks[0]] = json.dumps({"c": x["c"], "e": "wire", "o": "o1", "ok": 1, "sig": "A", "t": "ev"},
+                                       separators=(",", ":"))
             else:
                 c = [k for k, l in enumerate(s) if '"e":"closed"' in l]
                 if not c:
                     continue
                 del s2[c[-1]]
-            v = tlc_trace(ctx, [s2], "selftest-" + mode, count=False)
+            corrupted.append((mode, s2))
+            break
+        else:
+            if not ctx.violations:
+                unapplied.append(mode)
+    # one TLC run over all of them (TraceSignal_skip.cfg: a scenario may be passed over; the ones that are
+    # behaviours of the specification are those with a verdict line) - plus one intact scenario as control
+    if cleanall and corrupted:
+        vs = tlc_skip(ctx, [c for _, c in corrupted] + [cleanall[0]], "selftest")
+        if vs[-1] is None or vs[-1][0]:
+            raise Infra("trace self-test: the intact control scenario was not accepted")
+        for (mode, c), v in zip(corrupted, vs):
             tried += 1
-            if v[0] is None or v[0][0]:
+            if v is None or v[0]:
                 caught += 1
             else:
                 missed.append(mode)
-            break
-    if tried < 4 or caught != tried:
-        raise Infra("trace self-test: %d of %d corrupted scenarios rejected (accepted: %s)" % (caught, tried, missed))
+                log("self-test %s accepted:\n%s" % (mode, "\n".join(c[:400])))
+    # on a tree without violations every corruption finds a scenario to apply to (the hunted witnesses see
+    # to that); with violations around, the clean scenarios may be too few for some
+    # (a corruption needs a clean scenario of the right shape: the hunted witnesses provide one for each
+    #  unless the timing of that run made it one of the known findings; a few may go without)
+    if (not ctx.violations and tried < 9) or caught != tried:
+        raise Infra("trace self-test: %d of %d corrupted scenarios rejected (accepted: %s, no scenario for: %s)" %
+                    (caught, tried, missed, unapplied))
     ctx.extra["c13_selftest_corrupted_traces_rejected"] = caught
+    ctx.extra["c13_selftest_modes_without_scenario"] = unapplied
     ctx.extra["exhaustive"] = True
     ctx.extra["explanation"] = ("exhaustive TLC check of the conforming subscription protocol for 2 subscribers x <= 2 "
-                                "events in three placements; schedules of the code model (hunted counterexamples + "
-                                "simulation) forced on the real code with gates; randomised drivers; every recorded "
-                                "execution validated by TLC against TraceSignal.tla with the property invariants "
-                                "evaluated on it")
+                                "events in three placements on one object, on sibling objects through one client, "
+                                "with a foreign non-Event message, and next to a subscriber whose connection breaks; "
+                                "schedules of the code model (hunted counterexamples, hunted witnesses of the routing "
+                                "and failure situations, simulation) forced on the real code with gates; randomised "
+                                "drivers; every recorded execution validated by TLC against TraceSignal.tla with the "
+                                "property invariants evaluated on it")
     ctx.assumptions += [
         "queues are driven far below their capacity (100): the property is conditional on room",
         "window of a subscriber: emit calls made after Subscribe<X> returned and returned before the cancel "
@@ -259,4 +480,8 @@ def run(ctx):
         "user ids of registrations are distinct (rand.Int() in the code); the duplicate-id path belongs to C12",
         "a scenario ends after every subscription was cancelled and a call on every connection has returned: "
         "nothing may be in flight then (T_BOUND 5 s / 20 s)",
+        "a subscriber connection breaks only while its client has no call in flight; its subscribers are gone "
+        "from then on (not accounted); the failing stream is the harness' own (io.EOF or another error from "
+        "Write, the reader blocked until the harness ends it)",
+        "one emitter: emissions on different objects do not overlap",
     ]
